@@ -51,6 +51,9 @@ type c02Run struct {
 	tracks []*c02Track
 	n      int
 	dead   bool
+	// free: documents are handed to MergeDocument without parents (successive calls / several
+	// files on one command line): $match is then resolved among all documents the parser holds
+	free bool
 }
 
 func newC02Run() *c02Run { return &c02Run{p: newParser(), s: &ref.Stream{}} }
@@ -65,8 +68,11 @@ func (r *c02Run) layer(c *core.Ctx, oracle, wit string, docs []c02Doc) bool {
 		r.n++
 		data := cd.data()
 		d := bkl.NewDocumentWithData(id, core.Clone(data))
-		d.AddParents(r.prevI...)
-		rd := &ref.Doc{ID: id, Data: core.Clone(data), Parents: append([]*ref.Doc{}, r.prevM...)}
+		rd := &ref.Doc{ID: id, Data: core.Clone(data)}
+		if !r.free {
+			d.AddParents(r.prevI...)
+			rd.Parents = append([]*ref.Doc{}, r.prevM...)
+		}
 		curI = append(curI, d)
 		curM = append(curM, rd)
 		before := len(r.s.Docs)
@@ -253,6 +259,28 @@ func c02History(c *core.Ctx, oracle string, base []any, layers [][]c02Doc) {
 			return
 		}
 		r.independence(c, oracle, wit)
+	}
+}
+
+// c02FreeHistory: the same as c02History with every patch handed over without parents.
+func c02FreeHistory(c *core.Ctx, oracle string, base []any, patches []c02Doc) {
+	r := newC02Run()
+	r.free = true
+	var b []c02Doc
+	for _, d := range base {
+		b = append(b, c02Doc{Body: d})
+	}
+	if !r.layer(c, oracle, core.Canon(base), b) {
+		return
+	}
+	for k := range patches {
+		wit := "parentless: " + core.Canon(base)
+		for _, pd := range patches[:k+1] {
+			wit += " <- " + core.Canon(pd.data())
+		}
+		if !r.layer(c, oracle, wit, patches[k:k+1]) {
+			return
+		}
 	}
 }
 
@@ -445,6 +473,55 @@ func buildC02(tier string) *core.Plan {
 	}
 	sl := c02ShareLayers()
 	nsl := int64(len(sl))
+	// base streams holding EMPTY documents: they are documents of the stream like any other
+	{
+		eb := [][]any{
+			{map[string]any{"a": 1}, nil, map[string]any{"a": 2}},
+			{nil, map[string]any{"a": 1}},
+			{map[string]any{"a": 1}, nil},
+			{nil, nil},
+			{nil},
+		}
+		ne := int64(len(eb))
+		spaces = append(spaces, core.Space{Name: "base-streams-with-empty-documents", N: ne * nl,
+			Desc: func(i int64) any { return map[string]any{"base": eb[i/nl], "layer1": l1[i%nl], "then": "every second layer"} },
+			Run: func(c *core.Ctx, i int64) {
+				base, a := eb[i/nl], l1[i%nl]
+				c02History(c, "refStream-empty-docs", base, [][]c02Doc{a})
+				for _, b := range l2 {
+					c02History(c, "refStream-empty-docs", base, [][]c02Doc{a, b})
+				}
+			}})
+	}
+	// parentless patches that change the very keys later patterns look at: which documents a pattern
+	// selects is decided on the documents as they are NOW, every time (same pattern used repeatedly)
+	{
+		fb := [][]any{
+			{map[string]any{"a": 1}, map[string]any{"a": 2}},
+			{map[string]any{"a": 1}, map[string]any{"a": 1}},
+			{map[string]any{"a": 2}, map[string]any{"a": 3}, map[string]any{"a": 1}},
+			{map[string]any{"a": 1, "k": 0}},
+		}
+		var fp []c02Doc
+		for _, sel := range []any{map[string]any{"a": 1}, map[string]any{"a": 2}, map[string]any{}} {
+			for _, body := range []any{map[string]any{"a": 1}, map[string]any{"a": 2}, map[string]any{"a": 3}, map[string]any{"y": 1}, map[string]any{"y": 2}} {
+				fp = append(fp, c02Doc{HasSel: true, Sel: sel, Body: body})
+			}
+		}
+		fp = append(fp, c02Doc{HasSel: true, Sel: nil, Body: map[string]any{"a": 1}})
+		nfp := int64(len(fp))
+		spaces = append(spaces, core.Space{Name: "parentless-patches-changing-matched-keys", N: int64(len(fb)) * nfp * nfp,
+			Desc: func(i int64) any {
+				return map[string]any{"base": fb[i/(nfp*nfp)], "patch1": fp[(i/nfp)%nfp].data(), "patch2": fp[i%nfp].data(), "then": "every third patch"}
+			},
+			Run: func(c *core.Ctx, i int64) {
+				base, p1, p2 := fb[i/(nfp*nfp)], fp[(i/nfp)%nfp], fp[i%nfp]
+				c02FreeHistory(c, "refStream-parentless", base, []c02Doc{p1, p2})
+				for _, p3 := range fp {
+					c02FreeHistory(c, "refStream-parentless", base, []c02Doc{p1, p2, p3})
+				}
+			}})
+	}
 	spaces = append(spaces, core.Space{Name: "sharing", N: int64(len(shareBases)) * nsl,
 		Desc: func(i int64) any {
 			return map[string]any{"base": shareBases[i/nsl], "layer1": sl[i%nsl], "then": "every 2nd and 3rd layer"}
